@@ -48,6 +48,22 @@ def known_match(known, pid, mechanism):
 
 # --------------------------------------------------------------------- worker
 
+def all_cases(mod, pid, tier, seed):
+    """The check's own cases, then (for checks that declare SOAK) the soak sessions whose
+    whole-run monitors include this property (vf/soak.py)."""
+    yield from mod.cases(tier, seed)
+    if getattr(mod, "SOAK", False):
+        from . import soak
+        yield from soak.cases(tier, seed, pid)
+
+
+def run_one(mod, pid, case):
+    if isinstance(case, dict) and case.get("k") == "soak":
+        from . import soak
+        return soak.run_case(case, pid)
+    return mod.run_case(case)
+
+
 def worker(pid, tier, seed, shard, nshards, out_path, budget_s):
     from . import harness as H
     mod = load_prop(pid)
@@ -61,7 +77,7 @@ def worker(pid, tier, seed, shard, nshards, out_path, budget_s):
     known = load_known()
     new_count = 0
     try:
-        for i, case in enumerate(mod.cases(tier, seed)):
+        for i, case in enumerate(all_cases(mod, pid, tier, seed)):
             if i % nshards != shard:
                 continue
             if time.time() - t0 > budget_s:
@@ -69,7 +85,7 @@ def worker(pid, tier, seed, shard, nshards, out_path, budget_s):
                 res["exhaustive"] = False
                 break
             try:
-                r = mod.run_case(case)
+                r = run_one(mod, pid, case)
             except Exception:
                 res["errors"].append({"case": H.jsonable(case),
                                       "trace": traceback.format_exc()[-3000:]})
@@ -286,7 +302,7 @@ def replay(pid, path):
     with open(path) as f:
         body = json.load(f)
     case = pickle.loads(bytes.fromhex(body["case_pickle"]))
-    r = mod.run_case(case)
+    r = run_one(mod, pid, case)
     known = load_known()
     rc = 0
     for v in r.get("violations", []):
